@@ -4,6 +4,12 @@ C20 — JSX components convert purely and surface all dependencies.
 Model: Model/Jsx.lean (htmltools/_jsx.py).  `Discipline.demanded` is the copy discipline the property demands
 (every object is copied, with its own containers, before the walk assigns into it; the walked copy is rendered);
 `Discipline.pinned` is the pinned `_jsx.py` (defect F-C20).  All theorems hold for every component tree.
+
+Two further defects of the pinned code are stated the same way (the model follows the property, a `…_fails_for_pinned`
+theorem exhibits the pinned behaviour): F-C20b — `if allowedProps:` treats a declared empty allow-list as no restriction
+(`propsAllowedPinned`, `C20_allowed_fails_for_pinned`; repair fixes/C20-empty-allowedprops.patch); F-C20c — non-finite
+floats are written `inf` / `-inf` / `nan`, which are not JavaScript (`C20_numbers_fails_for_pinned`; `C20_numbers_finite`
+is the statement under the guard `finite`; repair fixes/C20-nonfinite-numbers.patch).
 -/
 import HtmlVerif.Lemmas.Jsx
 import HtmlVerif.Generated.Tables
@@ -237,7 +243,7 @@ theorem C20_values :
     JVal.null.serialize = .ok (chars% "null") ∧
     (JVal.bool true).serialize = .ok (chars% "true") ∧
     (JVal.bool false).serialize = .ok (chars% "false") ∧
-    (∀ t, (JVal.num t).serialize = .ok t) ∧
+    (∀ t, (JVal.num t).serialize = .ok (numJs t)) ∧
     (∀ s, (JVal.str s).serialize = .ok (jsQuote s)) ∧
     (∀ s, (JVal.jsx s).serialize = .ok s) ∧
     (∀ tup vs ss, vs.serializeAll = .ok ss → (JVal.list tup vs).serialize = .ok (jsArr ss)) ∧
@@ -268,6 +274,73 @@ theorem C20_values_style :
   intro s kvs h
   simp [JVal.serializeStyle, styleOfString, h]
 
+/-! ## numbers -/
+
+/-- `inf`, `-inf` and `nan` are not JavaScript numbers (nor is any other text that is not a decimal literal,
+    `Infinity`, `-Infinity` or `NaN`) -/
+theorem C20_python_nonfinite_text_is_not_js (v : PyNum) :
+    jsNumberDenotes (chars% "inf") v = false ∧ jsNumberDenotes (chars% "-inf") v = false ∧
+    jsNumberDenotes (chars% "nan") v = false := by
+  have h1 : jsNumParse (chars% "inf") = none := by decide
+  have h2 : jsNumParse (chars% "-inf") = none := by decide
+  have h3 : jsNumParse (chars% "nan") = none := by decide
+  simp [jsNumberDenotes, h1, h2, h3]
+
+/-- a number is written as a JavaScript numeric expression that evaluates to it: `t` is what Python's `str()` gives
+    for the number `v` (`pyStrOf`: the runtime's contribution — a decimal literal denoting `v` when `v` is finite,
+    `inf`/`-inf`/`nan` otherwise) -/
+theorem C20_numbers (t : Str) (v : PyNum) (h : pyStrOf t v = true) :
+    (JVal.num t).serialize = .ok (numJs t) ∧ jsNumberDenotes (numJs t) v = true := by
+  refine ⟨rfl, ?_⟩
+  have hfin : ∀ w : PyNum, jsNumberDenotes t w = true → numJs t = t := by
+    intro w hw
+    have hn := C20_python_nonfinite_text_is_not_js w
+    unfold numJs
+    by_cases h1 : t = chars% "inf"
+    · rw [h1, hn.1] at hw; cases hw
+    · by_cases h2 : t = chars% "-inf"
+      · rw [h2, hn.2.1] at hw; cases hw
+      · by_cases h3 : t = chars% "nan"
+        · rw [h3, hn.2.2] at hw; cases hw
+        · simp [h1, h2, h3]
+  cases v with
+  | int i => rw [hfin _ h]; exact h
+  | float n m e => rw [hfin _ h]; exact h
+  | inf n =>
+    cases n with
+    | false =>
+      have : t = chars% "inf" := by simpa [pyStrOf] using h
+      subst this; decide
+    | true =>
+      have : t = chars% "-inf" := by simpa [pyStrOf] using h
+      subst this; decide
+  | nan =>
+    have : t = chars% "nan" := by simpa [pyStrOf] using h
+    subst this; decide
+
+/-- under the guard `finite` the text is exactly Python's (true of the pinned code as well) -/
+theorem C20_numbers_finite (t : Str) (v : PyNum) (hf : v.finite = true) (h : pyStrOf t v = true) :
+    (JVal.num t).serialize = .ok t ∧ jsNumberDenotes t v = true := by
+  have h' : jsNumberDenotes t v = true := by
+    cases v <;> first | exact h | cases hf
+  have hn := C20_python_nonfinite_text_is_not_js v
+  have : numJs t = t := by
+    unfold numJs
+    by_cases h1 : t = chars% "inf"
+    · rw [h1, hn.1] at h'; cases h'
+    · by_cases h2 : t = chars% "-inf"
+      · rw [h2, hn.2.1] at h'; cases h'
+      · by_cases h3 : t = chars% "nan"
+        · rw [h3, hn.2.2] at h'; cases h'
+        · simp [h1, h2, h3]
+  exact ⟨by show Except.ok (numJs t) = _; rw [this], h'⟩
+
+/-- F-C20c: the guard is needed for a serialiser that writes `str(x)` for every number, as the pinned
+    `_serialize_attr` does — `float("inf")`, `float("-inf")` and `float("nan")` come out as `inf`, `-inf`, `nan` -/
+theorem C20_numbers_fails_for_pinned :
+    ∃ t v, pyStrOf t v = true ∧ v.finite = false ∧ jsNumberDenotes t v = false :=
+  ⟨chars% "inf", .inf false, by decide, rfl, by decide⟩
+
 /-! ## strings -/
 
 /-- a string free of backslashes and line breaks is written as a double-quoted literal that denotes the original text -/
@@ -285,26 +358,49 @@ theorem C20_strings_guard_needed : jsStringDenotes (jsQuote ['a', '\\']) ≠ som
 
 /-! ## construction -/
 
-/-- a prop outside a declared (non-empty) allow-list is rejected at construction -/
+/-- a prop outside a declared allow-list is rejected at construction — also when the declared list is empty -/
 theorem C20_allowed (upper : Str → Str) (name : Str) (ps : List Str) (kw : List (Str × JVal)) (kids : JNodes)
-    (hne : ps ≠ []) (hout : ∃ kv ∈ kw, kv.1 ∉ ps) :
+    (hout : ∃ kv ∈ kw, kv.1 ∉ ps) :
     jsxInit upper name (some ps) kw kids = .error .notImplemented := by
   unfold jsxInit
   split
   · rfl
   · have : propsAllowed (some ps) kw = false := by
       obtain ⟨kv, hkv, hn⟩ := hout
-      cases ps with
-      | nil => exact absurd rfl hne
-      | cons p r =>
-        simp only [propsAllowed]
-        apply Bool.eq_false_iff.mpr
-        intro hall
-        rw [List.all_eq_true] at hall
-        have := hall kv hkv
-        simp at this
-        exact hn (by simpa using this)
+      simp only [propsAllowed]
+      apply Bool.eq_false_iff.mpr
+      intro hall
+      rw [List.all_eq_true] at hall
+      have := hall kv hkv
+      exact hn (by simpa using this)
     simp [this]
+
+/-- a declared empty allow-list admits no prop at all -/
+theorem C20_allowed_empty (upper : Str → Str) (name : Str) (kv : Str × JVal) (kw : List (Str × JVal)) (kids : JNodes) :
+    jsxInit upper name (some []) (kv :: kw) kids = .error .notImplemented :=
+  C20_allowed upper name [] (kv :: kw) kids ⟨kv, by simp, by simp⟩
+
+/-- conversely nothing is rejected for its props when no list is declared or every keyword is listed -/
+theorem C20_allowed_iff (allowed : Option (List Str)) (kw : List (Str × JVal)) :
+    propsAllowed allowed kw = true ↔ ∀ ps, allowed = some ps → ∀ kv ∈ kw, kv.1 ∈ ps := by
+  cases allowed with
+  | none => simp [propsAllowed]
+  | some ps => simp [propsAllowed, List.all_eq_true]
+
+/-- F-C20b: the pinned truthiness test `if allowedProps:` lets every prop through a declared empty list —
+    `jsx_tag_create("Foo", allowedProps=[])(zzz=1)` is accepted; on non-empty lists (and `None`) it agrees -/
+theorem C20_allowed_fails_for_pinned :
+    propsAllowedPinned (some []) [(['z', 'z', 'z'], .num ['1'])] = true ∧
+    propsAllowed (some []) [(['z', 'z', 'z'], .num ['1'])] = false ∧
+    (∀ allowed kw, allowed ≠ some [] → propsAllowedPinned allowed kw = propsAllowed allowed kw) := by
+  refine ⟨rfl, rfl, ?_⟩
+  intro allowed kw h
+  cases allowed with
+  | none => rfl
+  | some ps =>
+    cases ps with
+    | nil => exact absurd rfl h
+    | cons p r => rfl
 
 /-- a name whose last dotted piece does not start with a capital letter is rejected -/
 theorem C20_lowercase_rejected (upper : Str → Str) (name : Str) (allowed : Option (List Str))
@@ -332,10 +428,23 @@ example : ((JNode.comp ['F'] (.cons ['p'] (.node (.tobj (.str .plain ['s']))) .n
       (.cons (.tobj (.tag ['i'] [] (.cons (.md (.mnode 7)) .nil))) .nil)).walk .demanded).metas = [.mnode 7] := by
   rw [C20_collected]; rfl
 
-/-- hypotheses of `C20_allowed` / `C20_strings` are satisfiable -/
+/-- hypotheses of `C20_allowed` / `C20_strings` / `C20_numbers` are satisfiable -/
 example : jsxInit id ['F'] (some [['a']]) [(['b'], .null)] .nil = .error .notImplemented :=
-  C20_allowed id ['F'] [['a']] [(['b'], .null)] .nil (by simp) ⟨(['b'], .null), by simp, by simp⟩
+  C20_allowed id ['F'] [['a']] [(['b'], .null)] .nil ⟨(['b'], .null), by simp, by simp⟩
 
-example : jsStringDenotes (jsQuote ['a', '"', 'b']) = some ['a', '"', 'b'] := C20_strings _ (by decide)
+/-- `1e+22` = 4768371582031250 · 2^21 exactly; `-0.0` keeps its sign; `0.1` is not a double but the literal rounds to the
+    double Python holds (and not to its neighbour); the smallest subnormal and the largest finite double; a power of two
+    (nearer lower neighbour); a 30-digit int; a literal with leading zeros is not JavaScript -/
+example : pyStrOf (chars% "1e+22") (.float false 4768371582031250 21) = true ∧
+    pyStrOf (chars% "-0.0") (.float true 0 (-1074)) = true ∧
+    pyStrOf (chars% "0.0") (.float true 0 (-1074)) = false ∧
+    pyStrOf (chars% "0.1") (.float false 7205759403792794 (-56)) = true ∧
+    pyStrOf (chars% "0.1") (.float false 7205759403792793 (-56)) = false ∧
+    pyStrOf (chars% "5e-324") (.float false 1 (-1074)) = true ∧
+    pyStrOf (chars% "1.7976931348623157e+308") (.float false 9007199254740991 971) = true ∧
+    pyStrOf (chars% "4503599627370496.0") (.float false 4503599627370496 0) = true ∧
+    pyStrOf (chars% "123456789012345678901234567890") (.int 123456789012345678901234567890) = true ∧
+    pyStrOf (chars% "2.5") (.float false 5629499534213120 (-51)) = true ∧
+    pyStrOf (chars% "007") (.int 7) = false ∧ pyStrOf (chars% "1e5") (.int 100000) = true := by decide +kernel
 
 end HtmlVerif.C20
